@@ -603,6 +603,24 @@ theorem left_null_proportional {n : Nat} {π : Nat → F} {Q : Nat → Nat → F
     ∀ i < n, ∀ j < n, x i * π j = x j * π i :=
   Reversible.left_null_proportional hdb hrs hπ hQ hconn x hx
 
+
+/-- **Left eigenvalues are real**: the solver is handed the transpose, i.e. it computes `x Q = λ x`.  If
+`(u + i w) Q = (a + i b)(u + i w)` with `(u, w) ≠ 0` for a matrix in detailed balance with a positive `π`, then `b = 0`
+(so taking `.real` of ARPACK's eigenvalues and eigenvectors loses nothing). -/
+theorem left_eigenvalue_real {n : Nat} {π : Nat → F} {Q : Nat → Nat → F} (hdb : DB n π Q)
+    (hπ : ∀ i < n, 0 < π i) (u w : Nat → F) (a b : F)
+    (hu : ∀ j < n, ∑ i ∈ Finset.range n, u i * Q i j = a * u j - b * w j)
+    (hw : ∀ j < n, ∑ i ∈ Finset.range n, w i * Q i j = b * u j + a * w j)
+    (hne : (∃ i < n, u i ≠ 0) ∨ (∃ i < n, w i ≠ 0)) : b = 0 :=
+  Reversible.left_eigenvalue_real hdb hπ u w a b hu hw hne
+
+/-- **No positive left eigenvalue**: every real left eigenvalue of a reversible generator is `≤ 0`. -/
+theorem left_eigenvalue_nonpos {n : Nat} {π : Nat → F} {Q : Nat → Nat → F} (hdb : DB n π Q) (hrs : RowSumZero n Q)
+    (hπ : ∀ i < n, 0 < π i) (hQ : ∀ i < n, ∀ j < n, i ≠ j → 0 ≤ Q i j)
+    (x : Nat → F) (lam : F) (heig : ∀ j < n, ∑ i ∈ Finset.range n, x i * Q i j = lam * x j)
+    (hx : ∃ i < n, x i ≠ 0) : lam ≤ 0 :=
+  Reversible.left_eigenvalue_nonpos hdb hrs hπ hQ x lam heig hx
+
 /-! ### … instantiated at the pipeline matrix -/
 
 /-- all energy differences are below the cap and unchanged by the rounding -/
@@ -768,6 +786,29 @@ theorem pipeline_spectrum (exp rnd : F → F) (kB NA T D : F) (s : SubGrids F) (
   have hq : Q a b ≠ 0 := (pipeline_pattern exp rnd kB NA T D s hv E (fun x => (hexpp x).ne') hD.ne' ha hne).mpr hab
   exact ⟨ha, hb, lt_of_le_of_ne (hQ a ha b hb hne) (Ne.symm hq)⟩
 
+
+/-- **Left spectrum of the pipeline matrix** (what the solver is asked for: eigenpairs of the transpose): every complex
+left eigenvalue is real and every left eigenvalue is `≤ 0`. -/
+theorem pipeline_left_spectrum (exp rnd : F → F) (kB NA T D : F) (s : SubGrids F) (hv : Valid s) (hp : Positive s)
+    (E : List F) (hexp : ∀ a b, exp (a + b) = exp a * exp b) (hexp0 : exp 0 = 1) (hexpp : ∀ x, 0 < exp x)
+    (hD : 0 < D) (hcap : BelowCap rnd E (s.nP * s.nB)) :
+    let n := s.nP * s.nB
+    let Q := pipelineQ exp rnd kB NA T D s E
+    (∀ (u w : Nat → F) (a b : F),
+        (∀ j < n, ∑ i ∈ Finset.range n, u i * Q i j = a * u j - b * w j) →
+        (∀ j < n, ∑ i ∈ Finset.range n, w i * Q i j = b * u j + a * w j) →
+        ((∃ i < n, u i ≠ 0) ∨ (∃ i < n, w i ≠ 0)) → b = 0)
+    ∧ (∀ (x : Nat → F) (lam : F), (∀ j < n, ∑ i ∈ Finset.range n, x i * Q i j = lam * x j) →
+        (∃ i < n, x i ≠ 0) → lam ≤ 0) := by
+  intro n Q
+  have hdb : DB n (pipelinePi exp kB NA T s E) Q := pipeline_DB exp rnd kB NA T D s hv E hexp hexp0 hcap
+  have hrs : RowSumZero n Q := pipeline_RowSumZero exp rnd kB NA T D s hv E
+  have hπ : ∀ i < n, 0 < pipelinePi exp kB NA T s E i := fun i hi => pipeline_pi_pos exp kB NA T s hv hp E hexpp hi
+  have hQ : ∀ i < n, ∀ j < n, i ≠ j → 0 ≤ Q i j :=
+    fun i hi j hj hij => pipeline_offdiag_nonneg exp rnd kB NA T D s hv hp E hexpp hD.le hi hj hij
+  exact ⟨fun u w a b hu hw hne => left_eigenvalue_real hdb hπ u w a b hu hw hne,
+    fun x lam heig hx => left_eigenvalue_nonpos hdb hrs hπ hQ x lam heig hx⟩
+
 /-! ## 6. `get_decomposition` after the ARPACK call: sorting keeps the pairs -/
 
 /-- **Sorting keeps every eigenvalue with its eigenvector**: the returned `(eigenvalue, eigenvector)` pairs are a
@@ -794,6 +835,41 @@ theorem sortEig_length (d : F) (vals : List (F × F)) (cols : List (List (F × F
     (sortEig d vals cols).1.length = vals.length ∧ (sortEig d vals cols).2.length = vals.length := by
   rw [sortEig_fst, sortEig_snd, List.length_map, List.length_map, (sortIdx_perm d vals).length_eq, List.length_range]
   exact ⟨rfl, rfl⟩
+
+
+/-
+OPEN (not a theorem here; the claim of C14 is partial):
+
+  "For solver settings whose spectral shift is absent or not itself an eigenvalue, the spectral decomposition of that
+   matrix returns real eigenvalues sorted in descending order that agree with a dense eigen-solver, the largest is zero
+   within solver tolerance, and its left eigenvector is proportional to V_i·exp(−E_i/RT)."
+
+  theorem decomposition_spec : ∀ settings (σ absent or not an eigenvalue), get_decomposition Q settings returns
+      (λ_1 ≥ … ≥ λ_k, v_1 … v_k) with  v_t Q = λ_t v_t,  λ_t real,  λ_1 = 0,  v_1 ∝ π
+
+Missing: a specification of `scipy.sparse.linalg.eigs` (ARPACK): that what it returns are eigenpairs of the matrix it is
+given, to the requested tolerance, and that the requested end of the spectrum is among them.  ARPACK is an external
+Fortran/C library and is a parameter of the model (`vals`, `cols` below); on the unchanged tree the second part is in
+fact false for some inputs (finding F13: the zero eigenvalue is skipped).  What is proved for all inputs:
+
+  * `decomposition_partial`: whatever the solver returns, the code returns exactly the real parts of the solver's pairs,
+    each eigenvalue with its own vector, in descending order;
+  * `left_eigenvalue_real`, `left_eigenvalue_nonpos`, `pipeline_spectrum`: *if* a returned pair is a left eigenpair of
+    the pipeline matrix, its eigenvalue is real and `≤ 0`; `0` is an eigenvalue with left eigenvector `π`, and on a
+    connected grid every left eigenvector for `0` is proportional to `π`.
+
+The harness checks the missing part on every run against `numpy.linalg.eigvals` (oracle of `harness/props/c14.py`).
+-/
+
+/-- **What `get_decomposition` does with the solver's output** (all solver outputs, all sizes): the returned pairs are a
+permutation of the real parts of the solver's pairs (every eigenvalue keeps its own eigenvector), the eigenvalues are in
+descending order, and nothing is dropped or added. -/
+theorem decomposition_partial (d : F) (vals : List (F × F)) (cols : List (List (F × F)))
+    (hlen : cols.length = vals.length) :
+    ((sortEig d vals cols).1.zip (sortEig d vals cols).2).Perm ((vals.map (·.1)).zip (cols.map fun c => c.map (·.1)))
+    ∧ (sortEig d vals cols).1.Pairwise (· ≥ ·)
+    ∧ (sortEig d vals cols).1.length = vals.length ∧ (sortEig d vals cols).2.length = vals.length :=
+  ⟨sortEig_pairs d vals cols hlen, sortEig_descending d vals cols, sortEig_length d vals cols⟩
 
 /-! ## Non-vacuity: a concrete geometry satisfying every hypothesis
 
@@ -863,6 +939,8 @@ example : pipelineQ (fun _ => 1) id 1 1 1 1 ex exE 0 1 = 5 / 168 ∧ pipelineQ (
 
 /-- all hypotheses of `pipeline_spectrum` (hence of every theorem above) hold for the example -/
 example := pipeline_spectrum (fun _ => (1 : Rat)) id 1 1 1 1 ex ex_valid ex_positive exE (fun _ _ => by norm_num) rfl
+  (fun _ => by norm_num) (by norm_num) ex_belowCap
+example := pipeline_left_spectrum (fun _ => (1 : Rat)) id 1 1 1 1 ex ex_valid ex_positive exE (fun _ _ => by norm_num) rfl
   (fun _ => by norm_num) (by norm_num) ex_belowCap
 
 /-- hypotheses of `pipeline_ok` -/
